@@ -230,7 +230,12 @@ def get_labels(
         ):
             continue
         else:
+            opc = pc
             pc += operation_length(op)
+            # Detect overflow of the program counter: instruction addresses, and the
+            # return address that CALL saves, must fit in 16 bits.
+            if pc > 0xFFFF and opc <= 0xFFFF:
+                messages.err("past the end of the 16-bit address space", loc=op.loc)
 
         # Detect overflow of the data counter.
         if out_of_range(dc) and not out_of_range(odc):
